@@ -898,8 +898,10 @@ outer:
 				if rn == '{' {
 					buf.Reset()
 					for {
-						rn, _, _ := r.ReadRune()
-						if rn == '}' {
+						rn, _, err := r.ReadRune()
+						if err != nil || rn == '}' {
+							// err != nil: the class name is not terminated,
+							// which the grammar parser reports as an error
 							break
 						}
 						buf.WriteRune(rn)
